@@ -27,7 +27,8 @@ func init() {
 		Rule: "scripted raw-TCP backend whose bytes the harness knows, behind forward.New wrapped in NewStateListener and a status-recording writer under a real http.Server; response shapes: statuses 200-599, 0-10 headers, bodies 0..2MB, Content-Length or chunked with chunk patterns; fault kinds x positions: connection refused, close / RST at {accept, after the request was read, mid-head, after the head, mid-body at byte k, before the last chunk}, garbage head, stall beyond ResponseHeaderTimeout, client cancel before the head and mid-body; " +
 			"expected client view and status mapping computed from the script (502 when no response byte was received, 504 on header timeout, 499 recorded for a cancelled client, 500 or 502 for a damaged head, the head plus a prefix of the body and never extra bytes for a failure after the head); every 'connected' must be followed by exactly one 'disconnected'; a probe request must succeed after each fault; non-trivial = case with a fault or a body >= 64kB or chunked framing; distinct by (fault kind, position, response shape)",
 		Assumptions: []string{"hang watchdog of 60s per request (here a hang is a violation, by the statement)", "ResponseHeaderTimeout of the proxy's transport set to 150ms to make the timeout class reachable"},
-		Parts:       []Part{{Name: "relay", Shards: 12, Fn: c16Relay}},
+		Parts: []Part{{Name: "relay", Shards: 12, Fn: c16Relay},
+			{Name: "concrelay", Race: true, Shards: 2, Fn: c16ConcRelay}},
 	})
 }
 
@@ -40,6 +41,7 @@ type c16Plan struct {
 	ChunkSize int    `json:"chunk_size"`
 	CutAt     int    `json:"cut_at"`
 	RST       bool   `json:"rst"`
+	Pauses    int    `json:"pauses"` // fault none: number of pauses while the response is being written
 }
 
 type c16Backend struct {
@@ -144,7 +146,16 @@ func (b *c16Backend) serve() {
 				conn.Close()
 				return
 			}
-			_, _ = conn.Write(full)
+			if p.Pauses > 0 {
+				// flush pattern: the response is written in pieces with pauses in between
+				step := max(1, len(full)/(p.Pauses+1))
+				for off := 0; off < len(full); off += step {
+					_, _ = conn.Write(full[off:min(off+step, len(full))])
+					time.Sleep(time.Duration(200+off%700) * time.Microsecond)
+				}
+			} else {
+				_, _ = conn.Write(full)
+			}
 			// keep-alive is not offered: one exchange per connection keeps the script exact
 			closeConn(conn, false)
 		}()
@@ -152,7 +163,7 @@ func (b *c16Backend) serve() {
 }
 
 func newC16Backend(r *rand.Rand, p c16Plan, seed uint64) (*c16Backend, error) {
-	l, err := net.Listen("tcp4", "127.0.0.1:0")
+	l, err := listenRetry("tcp4", "127.0.0.1:0")
 	if err != nil {
 		return nil, err
 	}
@@ -222,11 +233,15 @@ func c16Relay(c *Ctx) {
 	var mu sync.Mutex
 	results := map[string]*result{}
 	doneCh := map[string]chan struct{}{}
+	// two forwarders: the short response-header timeout is used only for the "stall" fault; every other case gets a
+	// generous one so that a loaded machine cannot turn a slow but correct exchange into a 504
 	fwd := forward.New(false)
-	fwd.Transport = &http.Transport{ResponseHeaderTimeout: 150 * time.Millisecond, DisableKeepAlives: true, MaxIdleConns: -1}
+	fwd.Transport = &http.Transport{ResponseHeaderTimeout: 45 * time.Second, DisableKeepAlives: true, MaxIdleConns: -1}
+	fwdStall := forward.New(false)
+	fwdStall.Transport = &http.Transport{ResponseHeaderTimeout: 150 * time.Millisecond, DisableKeepAlives: true, MaxIdleConns: -1}
 	// observe which error the reverse proxy hands to oxy's standard error handler (the handler itself is unchanged)
 	origErrHandler := fwd.ErrorHandler // whatever forward.New installed stays in charge
-	fwd.ErrorHandler = func(w http.ResponseWriter, req *http.Request, err error) {
+	recErrHandler := func(w http.ResponseWriter, req *http.Request, err error) {
 		id := req.URL.Query().Get("id")
 		mu.Lock()
 		if res := results[id]; res != nil {
@@ -239,15 +254,19 @@ func c16Relay(c *Ctx) {
 		}
 		utils.DefaultHandler.ServeHTTP(w, req, err)
 	}
-	sl := forward.NewStateListener(fwd, func(u *url.URL, state int) {
+	fwd.ErrorHandler = recErrHandler
+	fwdStall.ErrorHandler = recErrHandler
+	listen := func(u *url.URL, state int) {
 		id := u.Query().Get("id")
 		mu.Lock()
 		if res := results[id]; res != nil {
 			res.events = append(res.events, state)
 		}
 		mu.Unlock()
-	})
-	proxy := httptest.NewServer(http.HandlerFunc(func(w http.ResponseWriter, req *http.Request) {
+	}
+	sl := forward.NewStateListener(fwd, listen)
+	slStall := forward.NewStateListener(fwdStall, listen)
+	proxy := newTestServer(http.HandlerFunc(func(w http.ResponseWriter, req *http.Request) {
 		id := req.URL.Query().Get("id")
 		mu.Lock()
 		res := results[id]
@@ -261,6 +280,11 @@ func c16Relay(c *Ctx) {
 		target := req.Header.Get("X-Target")
 		req.Header.Del("X-Target")
 		req.URL = &url.URL{Scheme: "http", Host: target, Path: req.URL.Path, RawQuery: req.URL.RawQuery}
+		if req.Header.Get("X-Stall") != "" {
+			req.Header.Del("X-Stall")
+			slStall.ServeHTTP(&statusRec{w, &mu, &res.code}, req)
+			return
+		}
 		sl.ServeHTTP(&statusRec{w, &mu, &res.code}, req)
 	}))
 	defer proxy.Close()
@@ -289,6 +313,9 @@ func c16Relay(c *Ctx) {
 			p.BodyLen = r.IntN(20000)
 		}
 		p.Chunked = r.IntN(2) == 0
+		if p.Fault == "none" && r.IntN(3) == 0 {
+			p.Pauses = 1 + r.IntN(12)
+		}
 		p.ChunkSize = pick(r, []int{1, 7, 512, 4096, 65536, 0})
 		if p.BodyLen > 100000 && p.ChunkSize < 512 {
 			p.ChunkSize = 4096
@@ -330,6 +357,9 @@ func c16Relay(c *Ctx) {
 		defer cancel()
 		req, _ := http.NewRequestWithContext(ctx, "GET", proxy.URL+"/r?id="+id, nil)
 		req.Header.Set("X-Target", back.l.Addr().String())
+		if p.Fault == "stall" {
+			req.Header.Set("X-Stall", "1")
+		}
 		if p.Fault == "cancel-before-head" {
 			go func() { time.Sleep(40 * time.Millisecond); cancel() }()
 		}
@@ -544,4 +574,84 @@ func boundNotListening() (string, func(), error) {
 	port := got.(*syscall.SockaddrInet4).Port
 	var once sync.Once
 	return sfmt("127.0.0.1:%d", port), func() { once.Do(func() { syscall.Close(fd) }) }, nil
+}
+
+// c16ConcRelay: several large responses are relayed at the same time through ONE forwarder; every client must get
+// exactly its own backend's bytes (the statement says "unchanged, for any size and chunking" - also under load).
+func c16ConcRelay(c *Ctx) {
+	c.Cases("concrelay", c.N(6, 120), func(i int, r *rand.Rand) {
+		const G = 8
+		sizes := make([]int, G)
+		backs := make([]*httptest.Server, G)
+		for g := 0; g < G; g++ {
+			sizes[g] = 200000 + r.IntN(3000000)
+			if c.Quick() {
+				sizes[g] = 100000 + r.IntN(900000)
+			}
+			g := g
+			backs[g] = newTestServer(http.HandlerFunc(func(w http.ResponseWriter, req *http.Request) {
+				w.Header().Set("X-Backend", sfmt("b%d", g))
+				body := bytes.Repeat([]byte{byte('a' + g)}, sizes[g])
+				// large writes so that single reads on the proxy side are large, too
+				for off := 0; off < len(body); off += 256 << 10 {
+					_, _ = w.Write(body[off:min(off+256<<10, len(body))])
+				}
+			}))
+			defer backs[g].Close()
+		}
+		fwd := forward.New(r.IntN(2) == 0)
+		proxy := newTestServer(http.HandlerFunc(func(w http.ResponseWriter, req *http.Request) {
+			t := req.Header.Get("X-Target")
+			req.Header.Del("X-Target")
+			req.URL = &url.URL{Scheme: "http", Host: t, Path: req.URL.Path}
+			fwd.ServeHTTP(w, req)
+		}))
+		defer proxy.Close()
+		client := &http.Client{Transport: &http.Transport{MaxIdleConnsPerHost: G}, Timeout: 120 * time.Second}
+		rounds := 3 + r.IntN(4)
+		var bad sync.Map
+		for round := 0; round < rounds; round++ {
+			var wg sync.WaitGroup
+			start := make(chan struct{})
+			for g := 0; g < G; g++ {
+				wg.Add(1)
+				go func(g int) {
+					defer wg.Done()
+					<-start
+					req, _ := http.NewRequest("GET", proxy.URL+"/big", nil)
+					req.Header.Set("X-Target", backs[g].Listener.Addr().String())
+					resp, err := client.Do(req)
+					if err != nil {
+						bad.Store(g, sfmt("request failed: %v", err))
+						return
+					}
+					defer resp.Body.Close()
+					body, err := io.ReadAll(resp.Body)
+					if err != nil || len(body) != sizes[g] || resp.Header.Get("X-Backend") != sfmt("b%d", g) {
+						bad.Store(g, sfmt("got %d bytes (want %d), header %q, err %v", len(body), sizes[g], resp.Header.Get("X-Backend"), err))
+						return
+					}
+					for k, ch := range body {
+						if ch != byte('a'+g) {
+							bad.Store(g, sfmt("byte %d of the body of backend b%d is %q: bytes of another response", k, g, ch))
+							return
+						}
+					}
+				}(g)
+			}
+			close(start)
+			wg.Wait()
+			c.Count("concurrent_large_relays", G)
+		}
+		c.Eval()
+		first := ""
+		bad.Range(func(k, v any) bool { first = sfmt("client %v: %v", k, v); return false })
+		if first != "" {
+			c.Violation("relay/body-under-concurrency", sfmt("%d clients fetched %d-%d byte bodies through one forwarder at the same time: %s", G, 100000, 3200000, first), nil)
+			return
+		}
+		c.Nontrivial(sfmt("concrelay/%v/%d", sizes, rounds))
+		c.Count("concrelay_nontrivial", 1)
+	})
+	c.Require("concrelay_nontrivial", 2)
 }
